@@ -37,6 +37,15 @@ def handleAlloc : Handler := fun st op args =>
       | some (st, _) => some (st, "panic")
       | none => some (st, "model-mismatch")
     | _, _, _, _, _ => some (st, "bad-op")
+  -- tak.Alloc(size): storage of the shape New allocates; the harness never observes it, it only serves as a buffer
+  | "h.alloc", [slot, size] =>
+    match slot.toNat?, size.toNat? with
+    | some k, some n =>
+      match stepBoth st (.new ⟨n, 0, 0, false⟩) with
+      | some (st, .ok i) => some (setSlot st k (some i), "ok")
+      | some (st, _) => some (st, "panic")
+      | none => some (st, "model-mismatch")
+    | _, _ => some (st, "bad-op")
   | "h.fromraw", [slot, ptok] =>
     match slot.toNat?, parsePos ptok with
     | some k, some (p, true) =>
